@@ -168,13 +168,14 @@ func (g *SessionManager) selectSession(msg interface{}) getty.Session {
 		for i := 0; i < maxCheckAliveRetry; i++ {
 			<-ticker.C
 			g.allSessions.Range(func(key, value interface{}) bool {
-				session = key.(getty.Session)
-				if session.IsClosed() {
-					g.releaseSession(session)
-				} else {
-					return false
+				candidate := key.(getty.Session)
+				if candidate.IsClosed() {
+					// a connection that went away again: not a session to write to
+					g.releaseSession(candidate)
+					return true
 				}
-				return true
+				session = candidate
+				return false
 			})
 			if session != nil {
 				return session
